@@ -17,7 +17,7 @@ KA, KB = KIND_SETS[PARAM % 8]
 
 @obligation(funcs=["storage.db.DBStorage.add_event", "storage.db.DBStorage.pre_save", "storage.db.DBStorage.post_save",
                    "storage.db.DBStorage.process_tags"],
-            params=range(8), timeout=(280, 1500),
+            params=range(8), timeout=(450, 1800),
             bounds="store {e0, e1} (both of kind KA, authors by bool, created_at symbolic 1..200, d tag by selector from {absent, "
                    "a, ab, bare, empty, unicode}) then arrival of e2 of kind KB; (KA,KB) by PARAM from 8 pairs of replaceable / "
                    "parameterised / regular kinds; SELECT row order symbolic")
